@@ -36,6 +36,7 @@ CARRIERS: dict[str, tuple[str, str]] = {
     "sub_open": ("$(", "\n"),
     "f2_open": ('f"', "\n"),
     "fb_open": ('f"{', "\n"),
+    "fb": ('f"{', '}"\n'),
     "str3err": ('x = """', '""" +\n'),  # an error right after a multi-line token
     "fstr3err": ('x = f"""', '""" +\n'),
     "parenerr": ("f(", ") = 1\n"),  # an error whose span covers the bracket's lines
